@@ -159,6 +159,65 @@ def oracle_hb(run):
     return why
 
 
+# ---- machinery self-test (run before every check): fixed synthetic traces with known verdicts go through BOTH the Lean
+# driver and the python oracle; a wrong verdict of either is reported as a broken obligation --------------------------------
+SELFTEST = [
+    # (name, expected: "accept" | "race" | "reject", trace lines)
+    ("markers-and-lock", "accept", ["0 cfg t 1", "1 fork", "1 zzz hello 3", "1 mlk m0", "1 pwr D 1", "1 mul m0", "2 mlk m0",
+                                    "2 prd D 1", "2 mul m0", "0 prd D 1"]),
+    ("no-lock", "race", ["0 cfg t 1", "1 pwr D 1", "2 prd D 1"]),
+    ("main-joins-before-its-next-event", "accept", ["0 cfg t 1", "0 pwr D 0", "1 prd D 0", "2 prd D 0", "0 pwr D 1", "1 pwr D 2"]),
+    ("shared-shared-write", "race", ["0 cfg t 1", "1 slk m", "1 pwr D 1", "1 sul m", "2 slk m", "2 pwr D 2", "2 sul m"]),
+    ("shared-then-exclusive", "accept", ["0 cfg t 1", "1 slk m", "1 prd D 0", "1 sul m", "2 mlk m", "2 pwr D 2", "2 mul m",
+                                         "1 stl m 1", "1 prd D 2", "1 sul m"]),
+    ("failed-try-no-edge", "race", ["0 cfg t 1", "1 mlk m", "1 pwr D 1", "2 mtl m 0", "2 prd D 1", "1 mul m"]),
+    ("release-acquire", "accept", ["0 cfg t 1", "1 pwr D 1", "1 ast f rel 1", "2 ald f acq 1", "2 prd D 1"]),
+    ("relaxed-store", "race", ["0 cfg t 1", "1 pwr D 1", "1 ast f rlx 1", "2 ald f acq 1", "2 prd D 1"]),
+    ("relaxed-load", "race", ["0 cfg t 1", "1 pwr D 1", "1 ast f sc 1", "2 ald f rlx 1", "2 prd D 1"]),
+    ("consume-load", "race", ["0 cfg t 1", "1 pwr D 1", "1 ast f rel 1", "2 ald f con 1", "2 prd D 1"]),
+    ("rmw-chain", "accept", ["0 cfg t 1", "1 pwr D 1", "1 ast f rel 1", "3 rmw f rlx add 1 1", "2 ald f acq 2", "2 prd D 1"]),
+    ("store-breaks-chain", "race", ["0 cfg t 1", "1 pwr D 1", "1 ast f rel 1", "3 ast f rlx 2", "2 ald f acq 2", "2 prd D 1"]),
+    ("cas-ok-acquires", "accept", ["0 cfg t 1", "1 pwr D 1", "1 ast f rel 1", "2 cas f sc 1 5 1 1", "2 prd D 1"]),
+    ("cas-fail-sc-acquires", "accept", ["0 cfg t 1", "1 pwr D 1", "1 ast f rel 1", "2 cas f sc 0 5 0 1", "2 prd D 1"]),
+    ("cas-fail-rel-is-relaxed", "race", ["0 cfg t 1", "1 pwr D 1", "1 ast f rel 1", "2 cas f rel 0 5 0 1", "2 prd D 1"]),
+    ("cv-wait", "accept", ["0 cfg t 1", "1 mlk m", "1 cwt cv m", "2 mlk m", "2 pwr D 1", "2 cna cv", "2 mul m",
+                           "1 cwk cv m notified", "1 prd D 1", "1 mul m"]),
+    ("notify-no-edge", "race", ["0 cfg t 1", "2 pwr D 1", "2 cna cv", "1 prd D 1"]),
+    ("tap-fields", "race", ["0 cfg t 1", "1 mlk m", "1 pst count 8 1", "1 mul m", "2 pld count 8 1"]),
+    ("lockfam-disabled-unchecked", "accept", ["0 cfg lockfam go m 0", "1 pwr P 1", "2 prd P 1"]),
+    ("unknown-with-order", "reject", ["0 cfg t 1", "1 afn a0 sc"]),
+    ("unknown-on-known-mutex", "reject", ["0 cfg t 1", "1 mlk m0", "1 mul m0", "1 mxx m0"]),
+    ("bad-order", "reject", ["0 cfg t 1", "1 ald a0 weird 0"]),
+    ("bad-arity", "reject", ["0 cfg t 1", "1 mlk"]),
+]
+
+
+def selftest_hb(tier, seed):
+    import os
+    import subprocess
+    driver = os.path.join(os.path.dirname(os.path.dirname(os.path.abspath(__file__))), "lean", ".lake", "build", "bin", "driver")
+    text = ""
+    for name, _, lines in SELFTEST:
+        text += "RUN seed=0 strat=0 script=%s\n%s\nEND status=ok steps=0 decisions=\n" % (name, "\n".join(lines))
+    p = subprocess.run([driver, "hb"], input=text, stdout=subprocess.PIPE, stderr=subprocess.STDOUT, text=True, timeout=120)
+    verdicts = [l for l in p.stdout.split("\n") if l.startswith(("ACCEPT", "REJECT"))]
+    bad = []
+    if len(verdicts) != len(SELFTEST):
+        bad.append("driver produced %d verdicts for %d self-test traces" % (len(verdicts), len(SELFTEST)))
+    for (name, want, lines), v in zip(SELFTEST, verdicts):
+        got = "accept" if v.startswith("ACCEPT") else ("race" if " race on " in v else "reject")
+        if got != want:
+            bad.append("Lean hb driver: self-test '%s' expected %s, got: %s" % (name, want, v.split("||")[0]))
+        if want != "reject":
+            why = find_race(dict(trace=lines))
+            pgot = "race" if why else "accept"
+            if pgot != want:
+                bad.append("python oracle: self-test '%s' expected %s, got: %s" % (name, want, why))
+    return dict(obligations=len(SELFTEST), discharged=len(SELFTEST) - len(bad),
+                detail="hb machinery self-test: %d synthetic traces through the Lean driver and the python oracle" % len(SELFTEST),
+                lean_problem=("hb machinery self-test failed:\n" + "\n".join(bad)) if bad else None)
+
+
 def register(PROPS, COMPONENTS):
     names = []
     for cname, client, tap, nd, nq, nt in HB_CLIENTS:
@@ -166,7 +225,7 @@ def register(PROPS, COMPONENTS):
                                  oracle=oracle_hb)
         names.append(cname)
     PROPS["C07"] = dict(
-        lean_files=["ConcVerif/Props/C07.lean"], components=names, stage="B",
+        lean_files=["ConcVerif/Props/C07.lean"], components=names, stage="B", pre=selftest_hb,
         level_text="Lean 4 theorems (kernel-checked; any number of threads, locations and events) over a generic event model of "
                    "mutex / shared-mutex / condition-variable / atomic (with the memory order written in the source) / plain / "
                    "thread events: (i) the executable vector-clock race checker that is run on every observed trace is sound for "
